@@ -231,15 +231,15 @@ def nak_arbitrary_clauses(data):
 
 
 def nak_unpack_arbitrary_short(data):
-    """ANY octet string whose declared data-field length has no room for a segment request: every header, every buffer length"""
+    """ANY octet string whose declared data-field length cannot hold the two scope fields: every header, every buffer length"""
     if len(data) >= 3:
-        requires(data[1] * 256 + data[2] < 1 + 4 * (4 + 4 * bits(data[0], 0, 0)) + 2 * bits(data[0], 1, 1))
+        requires(data[1] * 256 + data[2] < 1 + 2 * (4 + 4 * bits(data[0], 0, 0)) + 2 * bits(data[0], 1, 1))
     nak_arbitrary_clauses(data)
 
 
 # branch_timeout_ms: the feasibility double-check of two-sided branches by the full solver mostly runs into its time limit on these
 # paths (sequence constraints of the refined buffer); a shorter limit only lets more (possibly infeasible) paths through
-NAK_ARB = dict(bounded="declared data field too short for a segment request", verifies=[NAK + "NakPdu.unpack"], max_paths=4000,
+NAK_ARB = dict(bounded="declared data field too short for the scope fields", verifies=[NAK + "NakPdu.unpack"], max_paths=4000,
                branch_timeout_ms=300)
 
 
@@ -270,9 +270,9 @@ def nak_unpack_arbitrary_8(data: Bytes):
 @obligation(["C06", "C09", "C10", "C04"], "NakPdu.unpack/arbitrary-segreqs",
             bounded="valid fixed header; declared data field <= scope + 2 segment requests + 15 octets", verifies=[NAK + "NakPdu.unpack"])
 def nak_unpack_arbitrary_segreqs(direction: EnumOf(Direction), mode: EnumOf(TransmissionMode), crc: EnumOf(CrcFlag),
-                                 large: EnumOf(LargeFileFlag), we: W2, ws: W2B, src: Int, seq: Int, dst: Int, extra: IntRange(1, 47),
+                                 large: EnumOf(LargeFileFlag), we: W2, ws: W2B, src: Int, seq: Int, dst: Int, extra: IntRange(0, 47),
                                  rest: Bytes):
-    """a well-formed fixed header (any flags; arbitrary headers: C05 and arbitrary-short) that declares 1..47 octets behind the scope
+    """a well-formed fixed header (any flags; arbitrary headers: C05 and arbitrary-short) that declares 0..47 octets behind the scope
     fields (up to 5 / 2 segment requests and every remainder), followed by ANY octets"""
     requires(ids_in_range(we, ws, src, seq, dst))
     requires(extra <= 4 * fss_len(large) + 15)
@@ -292,6 +292,8 @@ def nak_setters(mode: EnumOf(TransmissionMode), crc: EnumOf(CrcFlag), large0: En
     final = reqs1
     if reqs1 is None:
         final = []
+    # the final values fit the final width (values that do not fit make pack fail: NakPdu.pack/scalar, NakPdu.pack/list)
+    requires(both(fss_fits(large1, start), fss_fits(large1, end), all([both(fss_fits(large1, a), fss_fits(large1, b)) for (a, b) in final])))
     conf = mk_conf(we, ws, src, seq, dst, mode, crc, large0, Direction.TOWARDS_SENDER, SegmentationControl.NO_RECORD_BOUNDARIES_PRESERVATION)
     snap = snapshot(conf)
     pdu = NakPdu(conf, start, end, reqs0)
@@ -309,14 +311,11 @@ def nak_setters(mode: EnumOf(TransmissionMode), crc: EnumOf(CrcFlag), large0: En
                                      pdu.pdu_header.pdu_data_field_len == fresh.pdu_header.pdu_data_field_len))
     ensures("length-formula", pdu.pdu_header.pdu_data_field_len == 1 + (2 + 2 * len(final)) * fss_len(large1) + crc_len(crc))
     ensures("equal-to-fresh", both(pdu == fresh, fresh == pdu))
-    o = outcome(pdu.pack)
-    of = outcome(fresh.pack)
-    ensures("pack-as-fresh", iff(o.ok, of.ok))
-    if o.ok and of.ok:
-        ensures("octets-as-fresh", o.value == of.value)
-        ensures("packet_len", pdu.packet_len == len(o.value))
-        ensures("pack-twice", pdu.pack() == o.value)
-        ensures("still-equal", pdu == fresh)
+    raw = pdu.pack()
+    ensures("octets-as-fresh", raw == fresh.pack())
+    ensures("packet_len", pdu.packet_len == len(raw))
+    ensures("pack-twice", pdu.pack() == raw)
+    ensures("still-equal", pdu == fresh)
 
 
 @obligation(["C06"], "get_max_seg_reqs_for_max_packet_size_and_pdu_cfg",
@@ -584,14 +583,13 @@ def finished_arbitrary_clauses(data):
 
 
 def finished_unpack_arbitrary_short(data):
-    """ANY octet string whose declared data-field length leaves no room for TLVs (directive code, parameter octet, CRC at most):
-    every header, every buffer length"""
+    """ANY octet string whose declared data-field length has no room for the parameter octet: every header, every buffer length"""
     if len(data) >= 3:
-        requires(data[1] * 256 + data[2] <= 2 + 2 * bits(data[0], 1, 1))
+        requires(data[1] * 256 + data[2] < 2 + 2 * bits(data[0], 1, 1))
     finished_arbitrary_clauses(data)
 
 
-FIN_ARB = dict(bounded="declared data field without TLV area", verifies=[FIN + "FinishedPdu.unpack"], max_paths=4000, branch_timeout_ms=300)
+FIN_ARB = dict(bounded="declared data field too short for the parameter octet", verifies=[FIN + "FinishedPdu.unpack"], max_paths=4000, branch_timeout_ms=300)
 
 
 @obligation(["C06", "C09", "C10", "C04"], "FinishedPdu.unpack/arbitrary-short-idw1", **FIN_ARB)
@@ -623,9 +621,9 @@ def finished_unpack_arbitrary_8(data: Bytes):
                     "no filestore-response TLVs (see no_filestore_response_tlv)",
             verifies=[FIN + "FinishedPdu.unpack", FIN + "FinishedPdu._unpack_tlvs"], max_paths=4000, branch_timeout_ms=300)
 def finished_unpack_arbitrary_tlvs(direction: EnumOf(Direction), mode: EnumOf(TransmissionMode), crc: EnumOf(CrcFlag),
-                                   large: EnumOf(LargeFileFlag), src: Int, seq: Int, dst: Int, area: IntRange(1, 6), rest: Bytes):
+                                   large: EnumOf(LargeFileFlag), src: Int, seq: Int, dst: Int, area: IntRange(0, 6), rest: Bytes):
     """a well-formed fixed header (any flags; arbitrary headers are the subject of C05 and of arbitrary-short-*) that declares a TLV
-    area of 1..6 octets, followed by ANY octets.  A PDU with several entity-ID TLVs is accepted by the library (the last one is kept,
+    area of 0..6 octets, followed by ANY octets.  A PDU with several entity-ID TLVs is accepted by the library (the last one is kept,
     the reported length then differs from the declared one) - the statement does not speak about such input, so only raises-only,
     the CRC gate and the independence of the octets behind the declared PDU are demanded"""
     we = 2
@@ -746,9 +744,11 @@ def name_accessor_ok(got, name):
             verifies=[MD + "MetadataPdu.__init__", MD + "MetadataPdu.pack", MD + "MetadataPdu._calculate_directive_field_len"])
 def metadata_pack_scalar(direction: EnumOf(Direction), mode: EnumOf(TransmissionMode), crc: EnumOf(CrcFlag), large: EnumOf(LargeFileFlag),
                          segctrl: EnumOf(SegmentationControl), we: W, ws: W, src: Int, seq: Int, dst: Int,
-                         closure: Bool, cksum: EnumOf(ChecksumType), size: Int, sname: NAME, dname: NAME):
-    """no options: every header configuration, file size over all integers (does not fit => pack fails)"""
+                         cl: IntRange(0, 1), cksum: EnumOf(ChecksumType), size: Int, sname: NAME, dname: NAME):
+    """no options: every header configuration, every file size that fits the file-size field (others: MetadataPdu.pack/file-size)"""
     requires(ids_in_range(we, ws, src, seq, dst))
+    closure = cl == 1     # a symbolic bool: no case split
+    requires(fss_fits(large, size))
     conf = mk_conf(we, ws, src, seq, dst, mode, crc, large, direction, segctrl)
     params = MetadataParams(closure, cksum, size, sname, dname)
     snap = snapshot(conf)
@@ -763,9 +763,6 @@ def metadata_pack_scalar(direction: EnumOf(Direction), mode: EnumOf(Transmission
         raw = o.value
         ensures("packet_len", pdu.packet_len == len(raw))
         ensures("data-field-len", pdu.pdu_header.pdu_data_field_len == len(raw) - (4 + 2 * we + ws))
-        cl = 0
-        if closure:
-            cl = 1
         layout_clauses(raw, crc, directive_body(TOWARDS_RECEIVER, mode, crc, large, segctrl, we, ws, src, seq, dst,
                                                 metadata_params(cl, cksum, large, size, name_octets(sname), name_octets(dname), b"")))
         ensures("accessors", both(pdu.closure_requested == closure, pdu.checksum_type == cksum, pdu.file_size == size,
@@ -773,6 +770,21 @@ def metadata_pack_scalar(direction: EnumOf(Direction), mode: EnumOf(Transmission
                                   pdu.direction == Direction.TOWARDS_RECEIVER, pdu.directive_type == 7))
         ensures("pack-twice", pdu.pack() == raw)
     ensures("caller-objects-untouched", both(same_state(conf, snap), same_state(params, psnap)))
+
+
+@obligation(["C06"], "MetadataPdu.pack/file-size", verifies=[MD + "MetadataPdu.pack"])
+def metadata_pack_file_size(crc: EnumOf(CrcFlag), large: EnumOf(LargeFileFlag), closure: Bool, cksum: EnumOf(ChecksumType), size: Int,
+                            sname: NAME, dname: NAME):
+    """file size over all integers: packing succeeds iff it fits the 32 / 64 bit field, and never truncates"""
+    conf = mk_conf(1, 1, 1, 2, 3, TransmissionMode.ACKNOWLEDGED, crc, large, Direction.TOWARDS_RECEIVER,
+                   SegmentationControl.NO_RECORD_BOUNDARIES_PRESERVATION)
+    pdu = MetadataPdu(conf, MetadataParams(closure, cksum, size, sname, dname))
+    o = outcome(pdu.pack)
+    fits = fss_fits(large, size)
+    ensures("not-fitting-refused", implies(not fits, o.raised(ValueError, struct.error)))
+    ensures("fitting-accepted", implies(fits, o.ok))
+    if o.ok:
+        ensures("file-size-field", o.value[9:9 + fss_len(large)] == fss(large, size))
 
 
 @obligation(["C06", "C11"], "MetadataPdu.pack/names", verifies=[MD + "MetadataPdu.__init__", MD + "MetadataPdu.pack",
@@ -934,14 +946,14 @@ def md_arbitrary_clauses(data):
 
 
 def metadata_unpack_arbitrary_short(data):
-    """ANY octet string whose declared data-field length is at most that of the smallest Metadata PDU (two empty names, no options):
+    """ANY octet string whose declared data-field length is below that of the smallest Metadata PDU (two empty names, no options):
     every header, every buffer length"""
     if len(data) >= 3:
-        requires(data[1] * 256 + data[2] <= 2 + (4 + 4 * bits(data[0], 0, 0)) + 2 + 2 * bits(data[0], 1, 1))
+        requires(data[1] * 256 + data[2] < 2 + (4 + 4 * bits(data[0], 0, 0)) + 2 + 2 * bits(data[0], 1, 1))
     md_arbitrary_clauses(data)
 
 
-MD_ARB = dict(bounded="declared data field not longer than the smallest Metadata PDU", verifies=[MD + "MetadataPdu.unpack"], max_paths=4000,
+MD_ARB = dict(bounded="declared data field shorter than the smallest Metadata PDU", verifies=[MD + "MetadataPdu.unpack"], max_paths=4000,
               branch_timeout_ms=300)
 
 
@@ -974,7 +986,7 @@ def metadata_unpack_arbitrary_8(data: Bytes):
             verifies=[MD + "MetadataPdu.unpack", MD + "MetadataPdu._parse_options"], max_paths=4000, branch_timeout_ms=300)
 def metadata_unpack_arbitrary_params(direction: EnumOf(Direction), mode: EnumOf(TransmissionMode), crc: EnumOf(CrcFlag),
                                      large: EnumOf(LargeFileFlag), src: Int, seq: Int, dst: Int, area: IntRange(0, 6), rest: Bytes):
-    """a well-formed fixed header (any flags; arbitrary headers: C05 and arbitrary-short-*) that declares 0..6 octets behind the
+    """a well-formed fixed header (any flags; arbitrary headers: C05 and arbitrary-short-*) that declares 0..6 octets (0, 1: too short) behind the
     file-size field (file name LVs and option TLVs), followed by ANY octets"""
     we = 1
     ws = 2
@@ -987,8 +999,8 @@ def metadata_unpack_arbitrary_params(direction: EnumOf(Direction), mode: EnumOf(
             verifies=[MD + "MetadataPdu.options", MD + "MetadataPdu.source_file_name", MD + "MetadataPdu.dest_file_name",
                       MD + "MetadataPdu._calculate_directive_field_len"])
 def metadata_setters(mode: EnumOf(TransmissionMode), crc: EnumOf(CrcFlag), large: EnumOf(LargeFileFlag), src: Int, seq: Int, dst: Int,
-                     closure: Bool, cksum: EnumOf(ChecksumType), size: Int, sname0: NAME, dname0: NAME, items0: ListOf(OPT_ITEM, 1),
-                     sname1: OptionalOf(NAME), dname1: OptionalOf(NAME), items1: OptionalOf(OPTIONS), options_first: Bool):
+                     closure: Bool, cksum: EnumOf(ChecksumType), size: Int, sname0: NAME, dname0: NAME, item0: OPT_ITEM,
+                     sname1: OptionalOf(NAME), dname1: NAME, items1: OptionalOf(OPTIONS), options_first: Bool):
     """options, source_file_name and dest_file_name setters == freshly built PDU with the final values; reported length == packed
     length.  (The caller's MetadataParams object keeps the names it was built with - the setters only change the PDU.)"""
     we = 2
@@ -999,7 +1011,7 @@ def metadata_setters(mode: EnumOf(TransmissionMode), crc: EnumOf(CrcFlag), large
     params = MetadataParams(closure, cksum, size, sname0, dname0)
     snap = snapshot(conf)
     psnap = snapshot(params)
-    pdu = MetadataPdu(conf, params, mk_options(items0))
+    pdu = MetadataPdu(conf, params, mk_options([item0]))
     final = None
     if items1 is not None:
         final = mk_options(items1)
